@@ -29,6 +29,9 @@ ALLOWED_AXIOMS = {
     'ProofIrrelevance.proof_irrelevance', 'proof_irrelevance',
     'JMeq.JMeq_eq', 'JMeq_eq',
     'Classical_Prop.classic', 'classic',
+    # the standard library's axioms of the classical real numbers (Reals / Flocq; used by the f64-level theorems of C18)
+    'ClassicalDedekindReals.sig_forall_dec', 'sig_forall_dec',
+    'ClassicalDedekindReals.sig_not_dec', 'sig_not_dec',
 }
 FORBIDDEN = re.compile(r'\b(Admitted|admit|Axiom|Axioms|Parameter|Parameters|Conjecture|Conjectures|Admit Obligations|'
                        r'Unset Guard Checking|Unset Positivity Checking|Unset Universe Checking|bypass_check|'
